@@ -179,6 +179,22 @@ static void replayPersistent(PBox* ref, const std::vector<std::string>& persiste
     ref->config(Feat(curFeat));
 }
 
+// drop the doctype block and the declaration events from a canonical event dump
+static std::string stripDecls(const std::string& ced) {
+    std::string o; bool inDt = false; size_t i = 0;
+    while (i < ced.size()) {
+        size_t e = ced.find('\n', i); if (e == std::string::npos) e = ced.size();
+        std::string l = ced.substr(i, e - i); i = e + 1;
+        if (l.compare(0, 3, "DT\t") == 0) { inDt = true; continue; }
+        if (l == "DT]") { inDt = false; continue; }
+        if (inDt) continue;
+        static const char* drop[] = {"ELD\t", "ATD\t", "IED\t", "EED\t", "NOT\t", "UENT\t", "ENT\t"};
+        bool d = false; for (size_t k = 0; k < 7; k++) if (l.compare(0, strlen(drop[k]), drop[k]) == 0) d = true;
+        if (!d) { o += l; o += '\n'; }
+    }
+    return o;
+}
+
 static std::string hSession(const Req& r) {
     std::string api = get(r, "api", "sax2");
     EntStore st; st.load(r);
@@ -229,6 +245,21 @@ static std::string hSession(const Req& r) {
             bool bad = got.find("\tF\t") != std::string::npos || got.find("EXC\t") != std::string::npos || mode != 0;
             out += head + (got == exp ? "OK" : "DIFF") + (dirty ? "\tafter-dirty" : "\tclean") + (bad ? "\tbad" : "\tgood") + "\n";
             if (got != exp) out += "<<<history\n" + got + "===fresh\n" + exp + ">>>\n";
+            if (bad) dirty = true;
+        }
+        else if (op[0] == "tparse") {
+            // transparency: the parse on the history parser (whatever it has cached / preloaded, current features) against a fresh parser that has
+            // NOTHING preloaded and does not use cached grammars, i.e. reads the DTD / schema inline through the resolver.  Compared: everything except the
+            // declaration events (a cached DTD is not re-announced), i.e. verdicts, positions, content, defaults, ignorable-whitespace classification.
+            std::string doc = get(r, "doc" + op[1]), sys = get(r, "docsys" + op[1], "mem:/doc" + op[1] + ".xml");
+            std::string got = stripDecls(box->run(doc, sys, "", 0, 0));
+            Feat nf(curFeat); nf.m["usecached"] = "0"; nf.m["cachegrammar"] = "0";
+            EntStore st2; st2.load(r); PBox* ref = makeBox(api, &st2); ref->config(nf);
+            std::string exp = stripDecls(ref->run(doc, sys, "", 0, 0));
+            delete ref;
+            bool bad = got.find("\tF\t") != std::string::npos || got.find("EXC\t") != std::string::npos;
+            out += head + (got == exp ? "OK" : "DIFF") + (dirty ? "\tafter-dirty" : "\tclean") + (bad ? "\tbad" : "\tgood") + (persistent.empty() ? "\tnocache" : "\tcached") + "\n";
+            if (got != exp) out += "<<<history(cached)\n" + got + "===fresh(inline)\n" + exp + ">>>\n";
             if (bad) dirty = true;
         }
         else out += head + "BADOP\n";
